@@ -118,11 +118,12 @@ def only_via(body, target, cond_bb, x):
 
 
 def search_relation(ctx, rid, fn, accessor):
-    """relation between Stored key and Target under which `lo = mid + 1` is executed, or None (finding emitted)"""
+    """what the binary search does when the stored key is Less / Equal / Greater than the target:
+    ({"Less": action, "Equal": action, "Greater": action}, call) with action in advance | narrow | other; None after a finding"""
     b = ctx.body(fn)
     short = fn.split("::")[-1]
     tparams = param_of_type(b, "&[u8]")
-    cmps = [c for c in b.calls() if c.declared in ORD_OPS and "[u8]" in (c.callee.get("self") or "")]
+    cmps = [c for c in b.calls() if (c.declared in ORD_OPS or c.declared == "core::cmp::Ord::cmp") and "[u8]" in (c.callee.get("self") or "")]
     if len(cmps) != 1 or len(tparams) != 1:
         ctx.finding(rid, "%s:%s:shape" % (rid, short), "cannot classify the search: expected one ordered comparison of byte slices and one "
                     "target parameter, found %d / %d" % (len(cmps), len(tparams)), b.file)
@@ -140,34 +141,106 @@ def search_relation(ctx, rid, fn, accessor):
     if sorted(sides) != ["S", "T"]:
         ctx.finding(rid, "%s:%s:operands" % (rid, short), "comparison operands are not (stored cell key, target): %s" % sides, c.loc())
         return None
-    rel = ORD_OPS[c.declared]
-    if sides == ["T", "S"]:
-        rel = SWAP[rel]
-    br = bool_branches(b, c.target) if c.target is not None else None
-    dest = c.dest[0] if c.dest else None
-    if br is None or value_root(b, br[0]) != dest:
-        ctx.finding(rid, "%s:%s:branch" % (rid, short), "the comparison result is not branched on directly", c.loc())
+    # the pair (lo, hi): operands of the addition whose half is the probe position
+    pair, mid = None, None
+    for x, blk in enumerate(b.blocks):
+        for st in blk["s"]:
+            if st[0] == "a" and st[2][0] == "bin" and st[2][1] == "Div" and op_const(st[2][3]) is not None and op_const(st[2][3]).get("v") == 2:
+                src = op_local(st[2][2])
+                r = value_root(b, src) if src is not None else None
+                sd = b.single_def(r) if r is not None else None
+                rv = sd[3][2] if sd and sd[2] == "assign" else None
+                if rv and rv[0] == "use" and rv[1][0] in ("c", "m") and rv[1][1][1]:
+                    sd = b.single_def(rv[1][1][0])
+                    rv = sd[3][2] if sd and sd[2] == "assign" else None
+                if rv and rv[0] == "bin" and rv[1] in ("Add", "AddWithOverflow", "AddUnchecked"):
+                    p, q = op_local(rv[2]), op_local(rv[3])
+                    if p is not None and q is not None:
+                        pair = (value_root(b, p), value_root(b, q))
+                        mid = st[1][0]
+    if pair is None:
+        ctx.finding(rid, "%s:%s:probe" % (rid, short), "cannot find the probe position `(lo + hi) / 2` of the search", b.file)
         return None
-    _, tb, fb = br
 
-    def advances(start):
+    def action(start, cond_bb):
+        acts = []
         for x in range(len(b.blocks)):
-            if not only_via(b, start, c.target, x):
+            if not only_via(b, start, cond_bb, x):
                 continue
             for st in b.blocks[x]["s"]:
-                if st[0] == "a" and st[2][0] == "bin" and st[2][1] in ("AddWithOverflow", "Add", "AddUnchecked"):
-                    k = op_const(st[2][3])
-                    if k is not None and k.get("v") == 1:
-                        return True
-        return False
+                if st[0] != "a" or st[1][1] or st[1][0] not in pair or st[2][0] != "use":
+                    continue
+                src = st[2][1]
+                if src[0] not in ("c", "m"):
+                    acts.append(("other", st[1][0]))
+                    continue
+                pl = src[1]
+                sl = pl[0]
+                if pl[1]:  # field 0 of a checked addition
+                    sd = b.single_def(pl[0])
+                    rv = sd[3][2] if sd and sd[2] == "assign" else None
+                    if rv and rv[0] == "bin" and rv[1] == "AddWithOverflow" and op_const(rv[3]) is not None and op_const(rv[3]).get("v") == 1 \
+                            and value_root(b, op_local(rv[2])) == mid:
+                        acts.append(("advance", st[1][0]))
+                    else:
+                        acts.append(("other", st[1][0]))
+                elif value_root(b, sl) == mid:
+                    acts.append(("set-mid", st[1][0]))
+                else:
+                    acts.append(("other", st[1][0]))
+        return acts
 
-    at, af = advances(tb), advances(fb)
-    if at == af:
-        ctx.finding(rid, "%s:%s:advance" % (rid, short), "cannot tell which branch advances the lower end (`mid + 1`): true=%s false=%s" % (at, af), c.loc())
+    branches = {}
+    if c.declared in ORD_OPS:
+        rel = ORD_OPS[c.declared]
+        if sides == ["T", "S"]:
+            rel = SWAP[rel]
+        br = bool_branches(b, c.target) if c.target is not None else None
+        dest = c.dest[0] if c.dest else None
+        if br is None or value_root(b, br[0]) != dest:
+            ctx.finding(rid, "%s:%s:branch" % (rid, short), "the comparison result is not branched on directly", c.loc())
+            return None
+        _, tb, fb = br
+        holds = {"<": ("Less",), "<=": ("Less", "Equal"), ">": ("Greater",), ">=": ("Greater", "Equal")}[rel]
+        for o in ("Less", "Equal", "Greater"):
+            branches[o] = (tb if o in holds else fb, c.target)
+    else:
+        # three-way: switch on the discriminant of the Ordering
+        swb = None
+        cur = c.target
+        for _ in range(3):
+            t = b.term(cur)
+            if t[0] == "switch":
+                swb = cur
+                break
+            if t[0] != "goto":
+                break
+            cur = t[1]
+        t = b.term(swb) if swb is not None else None
+        if t is None or t[4] != "i8":
+            ctx.finding(rid, "%s:%s:branch" % (rid, short), "the three-way comparison result is not matched on directly", c.loc())
+            return None
+        names = {255: "Less", -1: "Less", 0: "Equal", 1: "Greater"}
+        got = {names.get(v): tb for v, tb in t[2]}
+        for o in ("Less", "Equal", "Greater"):
+            tgt = got.get(o, t[3])
+            oo = o if sides == ["S", "T"] else {"Less": "Greater", "Greater": "Less", "Equal": "Equal"}[o]
+            branches[oo] = (tgt, swb)
+    acts = {o: action(*branches[o]) for o in branches}
+    lo = [x for a in acts.values() for (k, x) in a if k == "advance"]
+    if len(set(lo)) != 1:
+        ctx.finding(rid, "%s:%s:advance" % (rid, short), "cannot tell which bound the search advances with `mid + 1`: %s" % acts, c.loc())
         return None
-    if af:
-        rel = NEG[rel]
-    return rel, c
+    lo = lo[0]
+    out = {}
+    for o, a in acts.items():
+        if a == [("advance", lo)]:
+            out[o] = "advance"
+        elif len(a) == 1 and a[0][0] == "set-mid" and a[0][1] != lo:
+            out[o] = "narrow"
+        else:
+            out[o] = "other"
+    return out, c
 
 
 def run(ctx):
@@ -212,12 +285,14 @@ def run(ctx):
         r = search_relation(ctx, "C26.2", fn, acc)
         if r is None:
             continue
-        rel, c = r
+        acts, c = r
         short = fn.split("::")[-1]
-        ctx.instance("C26.2", "%s: lo advances iff stored %s target" % (short, rel))
-        ctx.oblige(rel == "<", "C26.2", "C26.2:%s:bound" % short,
-                   "%s advances past a cell when stored %s target: not a lower bound, so entries with a key equal to the target are skipped "
-                   "(equal keys sit on both sides of a separator after a split, and the newest of them is the leftmost)" % (short, rel), c.loc())
+        shown = ", ".join("stored %s target -> %s" % ({"Less": "<", "Equal": "=", "Greater": ">"}[o], acts[o]) for o in ("Less", "Equal", "Greater"))
+        ctx.instance("C26.2", "%s: %s" % (short, shown))
+        ctx.oblige(acts == {"Less": "advance", "Equal": "narrow", "Greater": "narrow"}, "C26.2", "C26.2:%s:bound" % short,
+                   "%s is not a lower bound (%s; a lower bound advances past smaller cells only and keeps narrowing on an equal one): entries with a key "
+                   "equal to the target are skipped or an arbitrary one of them is chosen — equal keys sit on both sides of a separator after a split, "
+                   "and the newest of them is the leftmost" % (short, shown), c.loc())
 
     # ------------------------------------------------------------------ C26.3
     ctx.rule("C26.3", "leaves are ordered by key only: no (key, payload) ordering; delete walks the run of equal keys and writes the page it read")
@@ -372,26 +447,55 @@ def _vec_root(b, c, i=0):
 
 def _leaf_split(ctx, b):
     rid = "C26.5"
-    ins = [c for c in b.calls() if c.name.startswith("alloc::vec::Vec::<T, A>::insert") and "(alloc::vec::Vec<u8>, u64)" in b.local_ty(_vec_root(b, c) or 0)]
+    from ..mirutil import peel_refs
+    ENT = "(alloc::vec::Vec<u8>, u64)"
+    ins = [c for c in b.calls() if c.name.startswith("alloc::vec::Vec::<T, A>::insert") and ENT in b.local_ty(_vec_root(b, c) or 0)]
     ctx.floor(rid, "leaf split: entry insert", len(ins), 1)
+    to = [(c, ops) for c, ops in _range_index(b, "RangeTo")]
+    fr = [(c, ops) for c, ops in _range_index(b, "RangeFrom")]
+    so = [c for c in b.calls() if c.name.startswith("alloc::vec::Vec::<T, A>::split_off") and ENT in b.local_ty(_vec_root(b, c) or 0)]
+    idiom = "slices" if len(to) == 1 and len(fr) == 1 and not so else ("split_off" if len(so) == 1 and not to and not fr else None)
+    ctx.oblige(idiom is not None, rid, "C26.5:leaf:halves", "cannot recognise how the entry list is halved: expected `[..mid]` + `[mid..]` of one list or one "
+               "`split_off(mid)` (found %d prefix / %d suffix slices, %d split_off)" % (len(to), len(fr), len(so)), b.file)
+    right_marks = {fr[0][0].bb} if idiom == "slices" else ({so[0].bb} if idiom == "split_off" else set())
+    left_marks = {to[0][0].bb} if idiom == "slices" else set()
+    so_src = value_root(b, _vec_root(b, so[0])) if idiom == "split_off" else None
+
+    def half_of(l, at=None):
+        if l is None:
+            return "?"
+        ls, cs = bslice(b, l, depth=24)
+        bbs = {c.bb for c in cs}
+        if bbs & right_marks:
+            return "right"
+        if bbs & left_marks:
+            return "left"
+        if so_src is not None and (so_src in ls or value_root(b, l) == so_src):
+            if at is not None:
+                return "left" if b.dominates(so[0].bb, at) and at != so[0].bb else "source"
+            return "left" if all(b.dominates(so[0].bb, u) for u in _use_blocks(b, l)) else "source"
+        return "source"
+
+    if idiom == "slices":
+        m1, m2 = _root_or_const(b, to[0][1][0]), _root_or_const(b, fr[0][1][0])
+        same_vec = _vec_root(b, to[0][0]) == _vec_root(b, fr[0][0])
+        ctx.oblige(m1 == m2 and m1 is not None and same_vec, rid, "C26.5:leaf:mid",
+                   "the two halves are not `[..mid]` and `[mid..]` of the same list over the same mid: entries are lost or duplicated by the split", to[0][0].loc())
+    targets = {}
     for c in ins:
         _, cs = arg_slice(b, c, 1)
         ok = any(x.name == LEAF_LB for x in cs)
         ctx.oblige(ok, rid, "C26.5:leaf:position", "the new entry's position in the split list does not come from the leaf's lower bound "
                    "(a position among equal keys other than the first makes an older entry the first of its key)", c.loc())
-    to = [(c, ops) for c, ops in _range_index(b, "RangeTo")]
-    fr = [(c, ops) for c, ops in _range_index(b, "RangeFrom")]
-    ok = len(to) == 1 and len(fr) == 1
-    ctx.oblige(ok, rid, "C26.5:leaf:halves", "expected one `[..mid]` and one `[mid..]` slice of the entry list, found %d / %d" % (len(to), len(fr)), b.file)
-    if ok:
-        m1, m2 = _root_or_const(b, to[0][1][0]), _root_or_const(b, fr[0][1][0])
-        same_vec = _vec_root(b, to[0][0]) == _vec_root(b, fr[0][0]) and ins and _vec_root(b, to[0][0]) == _vec_root(b, ins[0])
-        ctx.oblige(m1 == m2 and m1 is not None and same_vec, rid, "C26.5:leaf:mid",
-                   "the two halves are not `[..mid]` and `[mid..]` of the same list over the same mid: entries are lost or duplicated by the split", to[0][0].loc())
-    # separator: clone of field 0 of element 0 of the right half, passed to insert_into_parent
+        v = _vec_root(b, c)
+        h = half_of(v, c.bb)
+        if h == "source" and idiom == "slices":
+            # must be the list that is sliced afterwards
+            ctx.oblige(v == _vec_root(b, to[0][0]), rid, "C26.5:leaf:insert-target", "the new entry is inserted into a list that is not the one being halved", c.loc())
+        targets[c.bb] = h
     par = [c for c in b.calls() if c.name == PARENT]
     ctx.floor(rid, "leaf split: parent update", len(par), 1)
-    ctx.instance(rid, "leaf split in BTree::insert: %d list insert, %d prefix / %d suffix slices, %d parent update" % (len(ins), len(to), len(fr), len(par)))
+    ctx.instance(rid, "leaf split in BTree::insert: idiom=%s, new entry inserted into %s, %d parent update" % (idiom, sorted(set(targets.values())), len(par)))
     wr = [c for c in b.calls() if c.name == WRITE_PAGE]
     al = [c for c in b.calls() if c.name == ALLOC]
     rb = [c for c in b.calls() if c.name == REBUILD_LEAF]
@@ -399,13 +503,19 @@ def _leaf_split(ctx, b):
                "found %d / %d" % (len(rb), len(al)), b.file)
     for p in par:
         ls, cs = arg_slice(b, p, 4)
-        idx0 = [x for x in cs if x.declared == "core::ops::index::Index::index" and op_const(x.args[1]) is not None and op_const(x.args[1]).get("v") == 0]
-        right_half = False
-        for x in idx0:
-            _, cs2 = arg_slice(b, x, 0)
-            if fr and any(y.bb == fr[0][0].bb for y in cs2):
-                right_half = True
-        ctx.oblige(right_half, rid, "C26.5:leaf:separator", "the separator handed to the parent is not the first key of the right half", p.loc())
+        reads = []
+        for x in cs:
+            if x.declared == "core::ops::index::Index::index" and len(x.args) > 1 and op_const(x.args[1]) is not None and op_const(x.args[1]).get("v") == 0:
+                reads.append(x)
+            if x.name.endswith("::first") and x.args:
+                reads.append(x)
+        first_of_right = [x for x in reads if half_of(peel_refs(b, op_local(x.args[0])), x.bb) == "right"]
+        ctx.oblige(bool(first_of_right), rid, "C26.5:leaf:separator", "the separator handed to the parent is not the first key of the right half", p.loc())
+        for x in first_of_right:
+            late = [c for c in ins if targets.get(c.bb) == "right" and c.bb in b.reachable([x.bb])]
+            ctx.oblige(not late, rid, "C26.5:leaf:separator-before-insert", "the separator is read from the right half before the new entry is placed in it: "
+                       "when the new entry becomes the first of the right half the parent keeps a separator greater than the half's smallest key, "
+                       "and lookups of keys in between descend to the wrong leaf", x.loc())
         # roles: left = page being split (not freshly allocated), right = freshly allocated
         _, lcs = arg_slice(b, p, 3)
         _, rcs = arg_slice(b, p, 5)
@@ -430,8 +540,7 @@ def _leaf_split(ctx, b):
             _, cs = arg_slice(b, c, 1)
             sib_is_new = any(x.name == ALLOC for x in cs)
             sib_is_old = any(x.name == RIGHT_SIB for x in cs)
-            _, ecs = arg_slice(b, c, 2)
-            half = "left" if to and any(y.bb == to[0][0].bb for y in ecs) else ("right" if fr and any(y.bb == fr[0][0].bb for y in ecs) else "?")
+            half = half_of(peel_refs(b, op_local(c.args[2])), c.bb) if len(c.args) > 2 and op_local(c.args[2]) is not None else "?"
             if half == "left":
                 ctx.oblige(sib_is_new and not sib_is_old, rid, "C26.5:leaf:link-left", "the left half is not linked to the new page", c.loc())
                 link_new += 1
@@ -440,6 +549,10 @@ def _leaf_split(ctx, b):
                 link_old += 1
         ctx.oblige(link_new == 1 and link_old == 1, rid, "C26.5:leaf:links", "could not match the two rebuild_leaf calls with the left and right halves", b.file)
     _page_pairing(ctx, rid, b, "insert")
+
+
+def _use_blocks(b, l):
+    return [u[0] for u in b.uses().get(l, [])]
 
 
 def _internal_split(ctx, b):
